@@ -23,6 +23,10 @@ import (
 // to (c16E.T, the raw text: statement items are joined by one space, call arguments by a
 // comma), so the oracle can compare the composite literal it parses out of the output
 // with the multiset of surviving pairs without asking the model or the implementation.
+//
+// Streams: distinct-keys, equal-key-texts (prefix / composite families), qual-key-renamed,
+// fill-between-renders (c16_fill.go), hostile-text (c16_text.go: format verbs, comment
+// markers, block comments, runs of blanks in the key and value texts, also nested).
 type c16 struct{}
 
 func init() { Register(c16{}) }
@@ -476,6 +480,12 @@ func (c16) Generate(r *rand.Rand, t string) []*Case {
 	for i := 0; i < nf; i++ {
 		out = append(out, c16FillCase(r, i))
 	}
+	// stream hostile-text (c16_text.go): format verbs, comment markers, real block comments and
+	// runs of blanks in the key and value texts; drawn last, the draws above are unchanged
+	nt := tier(t, 3000, 40000)
+	for i := 0; i < nt; i++ {
+		out = append(out, c16TextCase(r, i))
+	}
 	return out
 }
 
@@ -776,13 +786,38 @@ func C16Check(src, view string, exp []C16KV) string {
 
 	// the pairs of the literal
 	var gotP []C16KV
+	var kvs []*ast.KeyValueExpr
 	for _, el := range lit.Elts {
 		kv, ok := el.(*ast.KeyValueExpr)
 		if !ok {
 			return fmt.Sprintf("element %q of the literal is not key: value", text(el))
 		}
+		kvs = append(kvs, kv)
+	}
+	for i, kv := range kvs {
 		if raw {
-			gotP = append(gotP, C16KV{text(kv.Key), text(kv.Value)})
+			// the key and the value with the comments chained to them (c16_text.go): the comments
+			// between the previous comma (or the opening brace) and the key, between the key and
+			// the colon, between the colon and the value, between the value and the next comma (or
+			// the closing brace)
+			prev := off(lit.Lbrace) + 1
+			var lead [][2]int
+			if i > 0 {
+				prev = off(kvs[i-1].Value.End())
+				_, lead, _ = c16Trivia(src, prev, off(kv.Key.Pos()))
+			} else {
+				lead, _, _ = c16Trivia(src, prev, off(kv.Key.Pos()))
+			}
+			trail, _, _ := c16Trivia(src, off(kv.Key.End()), off(kv.Colon))
+			k0, k1 := c16Span(off(kv.Key.Pos()), off(kv.Key.End()), lead, trail)
+			lead, _, _ = c16Trivia(src, off(kv.Colon)+1, off(kv.Value.Pos()))
+			next := off(lit.Rbrace)
+			if i+1 < len(kvs) {
+				next = off(kvs[i+1].Key.Pos())
+			}
+			trail, _, _ = c16Trivia(src, off(kv.Value.End()), next)
+			v0, v1 := c16Span(off(kv.Value.Pos()), off(kv.Value.End()), lead, trail)
+			gotP = append(gotP, C16KV{src[k0:k1], src[v0:v1]})
 		} else {
 			k, _ := c16Tokens(text(kv.Key))
 			v, _ := c16Tokens(text(kv.Value))
